@@ -171,6 +171,20 @@ def generated_dir():
     target = os.path.join(cache, "pycode_" + dg)
     if os.path.isdir(target) and os.path.exists(os.path.join(target, ".complete")):
         return target, {}, True
+    # several checks may start on a cold cache at the same time: one generates, the others wait for it
+    import fcntl
+    lock = open(os.path.join(cache, ".lock"), "w")
+    fcntl.flock(lock, fcntl.LOCK_EX)
+    try:
+        return _generated_dir_locked(cache, target)
+    finally:
+        fcntl.flock(lock, fcntl.LOCK_UN)
+        lock.close()
+
+
+def _generated_dir_locked(cache, target):
+    if os.path.isdir(target) and os.path.exists(os.path.join(target, ".complete")):
+        return target, {}, True
     d, errors = generate_pycode()
     if os.path.isdir(target):
         shutil.rmtree(target, ignore_errors=True)
